@@ -49,6 +49,8 @@ def run(ctx):
 
 SPEC['explanation'] += " T6o: only self's own lock is ever acquired in the class (no second instance's lock: no lock-order deadlock between a == b and b == a)."
 SPEC['decided'] += ['lock order (own lock only)']
+SPEC['explanation'] += " T6o also recognises another instance's lock held in a local (`l = other._lock` / getattr)."
+SPEC['decided'] += []
 MANIFEST = {
     'technique': 'lock-discipline (lockset) analysis over all CFG paths of every public operation, receiver-sensitive inlining',
     'text': ('Decides the mutual-exclusion clause of C03 completely for the code as written: on every control-flow '
